@@ -457,4 +457,196 @@ theorem face_survives (L : Lat) (R : Rot) (keep : Nat → Bool) (hwf : WF L R) (
   unfold walkFrom trace
   rw [traceLoop_congr (nextD L R) (nextD L (fun v => (R v).filter keep)) d _ d [d] (walk_survives L R keep hwf d hd hk')]
 
+section Relabel
+open Lat
+/-! ### relabelling the vertices leaves the rotation system, hence every face walk, unchanged -/
+
+theorem insertDesc_congr (key key' : Nat → Int × Int) (e : Nat) (l : List Nat)
+    (h : ∀ x, x = e ∨ x ∈ l → key x = key' x) : insertDesc key e l = insertDesc key' e l := by
+  induction l with
+  | nil => rfl
+  | cons x xs ih =>
+    unfold insertDesc
+    rw [h x (Or.inr (by simp)), h e (Or.inl rfl)]
+    split
+    · rfl
+    · rw [ih (fun y hy => h y (by rcases hy with hy | hy; exact Or.inl hy; exact Or.inr (List.mem_cons_of_mem _ hy)))]
+
+theorem foldl_insertDesc_congr (key key' : Nat → Int × Int) (l acc : List Nat)
+    (h : ∀ x, x ∈ l ∨ x ∈ acc → key x = key' x) :
+    l.foldl (fun acc e => insertDesc key e acc) acc = l.foldl (fun acc e => insertDesc key' e acc) acc := by
+  induction l generalizing acc with
+  | nil => rfl
+  | cons e l ih =>
+    simp only [List.foldl_cons]
+    rw [insertDesc_congr key key' e acc (fun x hx => h x (by rcases hx with hx | hx; exact Or.inl (by simp [hx]); exact Or.inr hx))]
+    apply ih
+    intro x hx
+    rcases hx with hx | hx
+    · exact h x (Or.inl (List.mem_cons_of_mem _ hx))
+    · have := (insertDesc_perm key' e acc).mem_iff.mp hx
+      rcases List.mem_cons.mp this with h1 | h1
+      · exact h x (Or.inl (by simp [h1]))
+      · exact h x (Or.inr h1)
+
+theorem inversePerm_inj {n : Nat} {o : List Nat} (hp : IsPerm n o) {a b : Nat} (ha : a < n) (hb : b < n)
+    (h : inversePerm o a = inversePerm o b) : a = b := by
+  have ha' := ((inverse_spec hp).1 a ha).2
+  have hb' := ((inverse_spec hp).1 b hb).2
+  rw [h] at ha'
+  rw [ha'] at hb'
+  exact Option.some.inj hb'
+
+variable (L : Lat) (n : Nat) (o : List Nat) (hp : IsPerm n o) (hr : ∀ e ∈ L.edges, e.1 < n ∧ e.2 < n)
+
+theorem ends_lt {L : Lat} {n : Nat} (hr : ∀ e ∈ L.edges, e.1 < n ∧ e.2 < n) {e : Nat} (he : e < L.E) :
+    (L.endsOf e).1 < n ∧ (L.endsOf e).2 < n := by
+  apply hr
+  unfold Lat.endsOf
+  have he' : e < L.edges.length := he
+  rw [List.getD_eq_getElem?_getD, List.getElem?_eq_getElem he']
+  exact List.getElem_mem he'
+
+include hp hr
+
+theorem permute_incident (v : Nat) (hv : v < n) :
+    incident (permute L o) (inversePerm o v) = incident L v := by
+  unfold incident
+  rw [(permute_edges L o 0).1]
+  apply List.filter_congr
+  intro e he
+  have heE : e < L.E := List.mem_range.mp he
+  have hends := (permute_edges L o e).2
+  rw [if_pos heE] at hends
+  obtain ⟨h1, h2⟩ := ends_lt hr heE
+  rw [hends]
+  simp only
+  have e1 : (inversePerm o (L.endsOf e).1 == inversePerm o v) = ((L.endsOf e).1 == v) := by
+    by_cases h : (L.endsOf e).1 = v
+    · simp [h]
+    · have : inversePerm o (L.endsOf e).1 ≠ inversePerm o v := fun hh => h (inversePerm_inj hp h1 hv hh)
+      simp [h, this]
+  have e2 : (inversePerm o (L.endsOf e).2 == inversePerm o v) = ((L.endsOf e).2 == v) := by
+    by_cases h : (L.endsOf e).2 = v
+    · simp [h]
+    · have : inversePerm o (L.endsOf e).2 ≠ inversePerm o v := fun hh => h (inversePerm_inj hp h2 hv hh)
+      simp [h, this]
+  rw [e1, e2]
+
+theorem permute_outVec (v : Nat) (hv : v < n) (e : Nat) (he : e < L.E) :
+    outVec (permute L o) (inversePerm o v) e = outVec L v e := by
+  unfold outVec
+  have hends := (permute_edges L o e).2
+  rw [if_pos he] at hends
+  obtain ⟨h1, _⟩ := ends_lt hr he
+  rw [permute_evec L n o hp hr e he, hends]
+  simp only
+  have e1 : (inversePerm o (L.endsOf e).1 == inversePerm o v) = ((L.endsOf e).1 == v) := by
+    by_cases h : (L.endsOf e).1 = v
+    · simp [h]
+    · have : inversePerm o (L.endsOf e).1 ≠ inversePerm o v := fun hh => h (inversePerm_inj hp h1 hv hh)
+      simp [h, this]
+  rw [e1]
+
+/-- **the clockwise list of a vertex is the same before and after relabelling** -/
+theorem permute_rotAt (v : Nat) (hv : v < n) : rotAt (permute L o) (inversePerm o v) = rotAt L v := by
+  unfold rotAt
+  rw [permute_incident L n o hp hr v hv]
+  apply foldl_insertDesc_congr
+  intro x hx
+  rcases hx with hx | hx
+  · have hxE : x < L.E := by
+      have := (mem_incident L v x).mp hx
+      exact this.1
+    exact permute_outVec L n o hp hr v hv x hxE
+  · simp at hx
+
+/-- **C12.5b** the face walk takes the same step in the relabelled lattice: same next edge, same orientation — so every
+    plaquette of the relabelled lattice is the same list of (edge, direction) pairs as before -/
+theorem permute_nextD (d : Dart) (hd : d.1 < L.E) :
+    nextD (permute L o) (rotAt (permute L o)) d = nextD L (rotAt L) d := by
+  have hends := (permute_edges L o d.1).2
+  rw [if_pos hd] at hends
+  obtain ⟨h1, h2⟩ := ends_lt hr hd
+  have hhead : (permute L o).head d = inversePerm o (L.head d) := by
+    unfold Lat.head; rw [hends]; split <;> rfl
+  have hhl : L.head d < n := by unfold Lat.head; split <;> assumption
+  unfold nextD
+  simp only
+  rw [hhead, permute_rotAt L n o hp hr _ hhl]
+  set e' := (rotAt L (L.head d)).getD (((rotAt L (L.head d)).idxOf d.1 + 1) % (rotAt L (L.head d)).length) 0 with he'
+  apply Prod.ext
+  · rfl
+  · simp only
+    by_cases hmem : e' < L.E
+    · have hends' := (permute_edges L o e').2
+      rw [if_pos hmem] at hends'
+      obtain ⟨g1, _⟩ := ends_lt hr hmem
+      rw [hends']
+      simp only
+      by_cases h : (L.endsOf e').1 = L.head d
+      · simp [h]
+      · have : inversePerm o (L.endsOf e').1 ≠ inversePerm o (L.head d) := fun hh => h (inversePerm_inj hp g1 hhl hh)
+        simp [h, this]
+    · -- the next edge is always a real edge (it is taken from the list of incident edges, which contains d.1)
+      exfalso
+      have hdm : d.1 ∈ rotAt L (L.head d) := by
+        rw [(rotAt_perm L _).mem_iff, mem_incident]
+        refine ⟨hd, ?_⟩
+        unfold Lat.head; split <;> simp
+      have hlen : 0 < (rotAt L (L.head d)).length := List.length_pos_of_mem hdm
+      have hidx : ((rotAt L (L.head d)).idxOf d.1 + 1) % (rotAt L (L.head d)).length < (rotAt L (L.head d)).length :=
+        Nat.mod_lt _ hlen
+      have : e' ∈ rotAt L (L.head d) := by
+        rw [he', List.getD_eq_getElem?_getD, List.getElem?_eq_getElem hidx]
+        exact List.getElem_mem hidx
+      rw [(rotAt_perm L _).mem_iff, mem_incident] at this
+      exact hmem this.1
+
+
+omit hp hr in
+theorem sweep_congr {α : Type} [DecidableEq α] (tr tr' : α → List α) :
+    ∀ (l vis : List α), (∀ x ∈ l, tr x = tr' x) → sweep tr l vis = sweep tr' l vis := by
+  intro l
+  induction l with
+  | nil => intros; rfl
+  | cons d rest ih =>
+    intro vis h
+    unfold sweep
+    rw [h d (by simp)]
+    split
+    · exact ih vis (fun x hx => h x (List.mem_cons_of_mem _ hx))
+    · rw [ih _ (fun x hx => h x (List.mem_cons_of_mem _ hx))]
+
+omit hp hr in
+theorem mem_dartOrder {nE : Nat} {d : Dart} (h : d ∈ dartOrder nE) : d.1 < nE := by
+  unfold dartOrder at h
+  simp only [List.mem_flatMap, List.mem_range, List.mem_cons, List.not_mem_nil, or_false] at h
+  obtain ⟨e, he, hd⟩ := h
+  rcases hd with rfl | rfl <;> exact he
+
+/-- **C12.5c `permute_vertices` keeps the plaquettes**: the relabelled lattice has the very same face walks — the same
+    lists of (edge, direction) pairs, found in the same order (`hL`: no self-loops, the precondition of every plaquette
+    property) -/
+theorem permute_allWalks (hL : L.noSelfLoop = true) :
+    allWalks (permute L o) (rotAt (permute L o)) = allWalks L (rotAt L) := by
+  have hwf := rotAt_wf L hL
+  have hE : (permute L o).E = L.E := (permute_edges L o 0).1
+  unfold allWalks
+  rw [hE]
+  apply sweep_congr
+  intro d hd
+  have hdE : d.1 < L.E := mem_dartOrder hd
+  have hiter : ∀ k, (nextD (permute L o) (rotAt (permute L o)))^[k] d = (nextD L (rotAt L))^[k] d := by
+    intro k
+    induction k with
+    | zero => rfl
+    | succ k ih =>
+      rw [Function.iterate_succ_apply', Function.iterate_succ_apply', ih]
+      exact permute_nextD L n o hp hr _ (_root_.iter_valid L (rotAt L) hwf hdE k)
+  unfold walkFrom trace
+  rw [hE, traceLoop_congr (nextD L (rotAt L)) (nextD (permute L o) (rotAt (permute L o))) d _ d [d] hiter]
+
+end Relabel
+
 end C12
